@@ -98,9 +98,9 @@ Print Assumptions C03_born_invisible.
        the C01 backend theorems (C03_run_layers_wf), hence C03_noise_free_born_layered.
    (C) the instance at Coquelicot's complex numbers with the very constants of (R): C03_noise_free_born_C,
        C03_noise_free_born_layered_C (all hypotheses discharged).
-   NOT one theorem (correspondence / other properties): that the object the gate set returns, which (R) identifies as
-   a symbolic complex matrix, is the function-valued token `framed2 ...` of (G) — the same formula in two
-   representations; the simulator's loop from Qiskit instructions to method calls on internal indices (layout, delay,
+   (S) the seam (R)/(G): C03_token_is_framed, C03_token_is_framed1 — the complex matrix expression of (R) is entry by
+       entry the function-valued token `framed2 ...` / `framed1 ...` of (G) at R = C.
+   NOT one theorem (correspondence / other properties): the simulator's loop from Qiskit instructions to method calls on internal indices (layout, delay,
    barrier, measure: C08 / C14 + call-sequence correspondence); the layered builder `lstep` producing `run_layers`
    (C11 model + correspondence); marginalisation and key order (C14). *)
 Require Import QG.Model.NoiseFreeRun QG.Proofs.NoiseFreeRun QG.Proofs.NoiseFreeRunRefl QG.Proofs.NoiseFreeRunLayered QG.Proofs.NoiseFreeRunBuilder.
@@ -300,13 +300,13 @@ Theorem C03_noise_free_born_layered_C :
 Proof. exact noise_free_born_layered_C. Qed.
 Print Assumptions C03_noise_free_born_layered_C.
 
-(* ---- what is NOT proved: the two seams of the composition, stated in full ---- *)
-(* (i) the object the gate set returns — identified by (R) as the complex matrix expression expected_two — is, entry by
-       entry, the function-valued framed matrix that (G) uses as the token (slot a / b frames = exp(i old phase), inverse
-       new frames = conjugates of exp(i new phase), K = gate2 from the same table, same global phase).  Same formula in two
-       representations (lists of complex expressions vs functions on bit pairs); checked numerically by the oracle. *)
-Definition idx2 (r : bool * bool) : nat := (2 * b2n (fst r) + b2n (snd r))%nat.
-Definition C03_token_is_framed_full : Prop :=
+(* ---- the seam between (R) and (G), proved (Proofs/NoiseFreeRunToken.v): the object the gate set returns — identified by
+        (R) as a complex matrix expression — is, entry by entry, the function-valued framed matrix that (G) uses as the
+        token of the method call: FrameSim.framed2 f q1 q2 gam K ui1 ui2 r c = gam * pb2 ui1 ui2 r * K r c * pb2 (f q1) (f q2) c
+        with slot frames f = exp(i old phase), inverse new frames ui = conjugates of exp(i new phase), K = gate2 of the same
+        table, gam = the table's global phase; likewise framed1 for X / SX ---- *)
+Require Import QG.Proofs.NoiseFreeRunToken.
+Theorem C03_token_is_framed :
   forall h, In h gen_handoff -> forall k, kind2_of (h_meth h) = Some k -> forall rho a b, h_place h = [a; b] ->
   let ch := choose2 k (h_lt h) in
   let fo := fun s => interpC rho (cis (phi_old s)) in
@@ -316,7 +316,22 @@ Definition C03_token_is_framed_full : Prop :=
   = Cmult (Cmult (Cmult (gph_val C (RtoC 1) Copp Rdefinitions.R KC (c_gph ch)) (pb2 C (RtoC 1) Cmult (Cconj (fn a)) (Cconj (fn b)) r))
                  (gate2 C (RtoC 0) (RtoC 1) Cplus Cmult Copp Rdefinitions.R KC k (c_ctl_slot ch) r c))
           (pb2 C (RtoC 1) Cmult (fo a) (fo b) c).
-(* (ii) the layered builder state machine (Model/Builders.v: lstep, tied to circuit.py by C11's correspondence), fed the
+Proof. exact token_is_framed. Qed.
+Print Assumptions C03_token_is_framed.
+
+Theorem C03_token_is_framed1 :
+  forall h, In h gen_handoff -> forall k, kind1_of (h_meth h) = Some k -> forall rho,
+  let f := interpC rho (cis (phi_old 0)) in
+  forall r c : bool,
+  nth (b2n c) (nth (b2n r) (interpM rho (traced_one h k)) nil) (RtoC 0)
+  = Cmult (Cmult (Cmult (gph_val C (RtoC 1) Copp Rdefinitions.R KC (choose1 k)) (if r then Cconj f else RtoC 1))
+                 (gate1 C (RtoC 0) (RtoC 1) Cplus Cmult Copp Rdefinitions.R KC k r c))
+          (if c then f else RtoC 1).
+Proof. exact token_is_framed1. Qed.
+Print Assumptions C03_token_is_framed1.
+
+(* ---- what is NOT proved, stated in full ---- *)
+(* the layered builder state machine (Model/Builders.v: lstep, tied to circuit.py by C11's correspondence), fed the
         calls the simulator issues per instruction (layered_ops: the gate on its qubit, I(k) on the others, nothing for
         the target), stores exactly run_layers and is back at _s = 0 *)
 Definition C03_layered_builder_full : Prop :=
